@@ -167,13 +167,19 @@ def check_cli_hex(run, model, rng):
     import cli_runner
     import dirgen
     import pelgen
-    files = dirgen.gen_dir(model, rng, rng.randrange(1, 4), plugins=True)
-    files = [(n, d + bytes(rng.randrange(256) for _ in range(rng.choice([0, 0, 1, 3, 16, 40]))), m) for n, d, m in files]
+    # sizes: the usual few hundred bytes, and PELs beyond 4 KB / 64 KB (every byte of the file must come back, whatever part
+    # of it the mode needs for deciding)
+    big = rng.random() < 0.35
+    files = dirgen.gen_dir(model, rng, rng.randrange(1, 4), plugins=True, maxsecs=8 if big else 3, maxpayload=rng.choice([2000, 9000, 40000]) if big else 24)
+    files = [(n, d + bytes(rng.randrange(256) for _ in range(rng.choice([0, 0, 1, 3, 16, 40, 5000 if big else 0]))), m) for n, d, m in files]
     names = sorted(f[0] for f in files)
     by_name = {f[0]: f[1] for f in files}
     with dirgen.TempDir(files) as d:
         runs = [("-a", cli_runner.run_inproc(["-p", d, "-E", "-a", "-x"]), [by_name[n] for n in names]),
                 ("-l", cli_runner.run_inproc(["-p", d, "-E", "-l", "-x"]), [by_name[n] for n in names])]
+        if rng.random() < 0.5:
+            runs.append(("-l -r", cli_runner.run_inproc(["-p", d, "-E", "-l", "-x", "-r"]), [by_name[n] for n in reversed(names)]))
+            runs.append(("--src", cli_runner.run_inproc(["-p", d, "--src", "", "-x"]), None))
         n0 = rng.choice(names)
         runs.append(("-f", cli_runner.run_inproc(["-E", "-f", os.path.join(d, n0), "-x"]), [by_name[n0]]))
     for mode, (rc, out, err), want in runs:
@@ -189,6 +195,9 @@ def check_cli_hex(run, model, rng):
                 cur = None
             elif cur is not None:
                 cur.append(ln)
+        if want is None:
+            # a look-up shows some of the files: each block must be one of them, whole
+            want = blocks if all(b in by_name.values() for b in blocks) else []
         if blocks != want:
             run.violation("hexdisplay:cli:" + mode, "peltool %s -x does not reproduce the file's bytes between its markers" % mode,
                           dict(kind="S", fn="cli-hex", mode=mode, files=[[f[0], f[1].hex()] for f in files], got=[b.hex() for b in blocks]))
